@@ -12,14 +12,15 @@ Section DispatchP.
 Context {T R : Type}.
 Context (f : T -> R).
 Context (allowed : nat -> bool).
+Context (fb : bool).
 Context (md : mode).
 
 Local Notation msg := (Dispatch.msg T).
 Local Notation worker := (Dispatch.worker T R).
 Local Notation st := (Dispatch.st T R).
-Local Notation step := (Dispatch.step f allowed md).
-Local Notation reach := (Dispatch.reach f allowed md).
-Local Notation steps := (Dispatch.steps f allowed md).
+Local Notation step := (Dispatch.step f allowed fb md).
+Local Notation reach := (Dispatch.reach f allowed fb md).
+Local Notation steps := (Dispatch.steps f allowed fb md).
 Local Notation has_allowed_below := (Dispatch.has_allowed_below allowed).
 Local Notation init := (@Dispatch.init T R).
 
@@ -95,7 +96,7 @@ Definition pc_inv (s : st) : Prop :=
   | RLoop a => a = nsum (map busy (ws s)) /\ served (length (ws s)) (ws s)
                  /\ (pend s <> [] -> has_allowed_below (length (ws s)) -> 1 <= a)
   | RBar | RDone => nsum (map busy (ws s)) = 0 /\ served (length (ws s)) (ws s)
-                 /\ (has_allowed_below (length (ws s)) -> pend s = [])
+                 /\ (has_allowed_below (length (ws s)) \/ fb = true -> pend s = [])
   end.
 
 Definition Inv (tasks : list T) (s : st) : Prop :=
@@ -278,7 +279,13 @@ Proof.
     + intros Hne. contradiction.
   - (* exit *)
     destruct Hpc as (Ha & Hserved & Hact). split6; auto.
-    intros Hal. destruct p as [|t p]; auto. exfalso. assert (1 <= 0) by (apply Hact; [discriminate|auto]). lia.
+    intros [Hal|Hfb]; [|auto]. destruct p as [|t p]; auto. exfalso. assert (1 <= 0) by (apply Hact; [discriminate|auto]). lia.
+  - (* fallback: the root runs a pending task itself *)
+    destruct Hpc as (Ha & Hserved & Hact). rewrite map_app. cbn [map].
+    split; [|split; [|split; [|split; [|split]]]]; auto.
+    + etransitivity; [exact Hp1|]. perm_solve.
+    + etransitivity; [apply Permutation_app_tail; exact Hp2|]. perm_solve.
+    + intros _ Hal. apply Hact; [discriminate|exact Hal].
   - (* wtask *)
     split_ws H (mkW ms (outb w ++ [f t]) false).
     apply Forall_app in Hsh as [Hs1 Hs2]. inversion Hs2 as [|? ? Hw Hs3]; subst.
@@ -339,20 +346,19 @@ Proof.
   destruct (IH Hfl) as [E1 E2]. inversion Hw; subst; simpl in *; try discriminate. rewrite E1, E2. auto.
 Qed.
 
-(* every task is executed exactly once and the root yields exactly the results,
-   for every world size n, every admissible rank set containing a worker, every schedule *)
-Theorem dispatch_exactly_once tasks n s :
-  reach (init tasks n) s -> pc s = RDone -> has_allowed_below (length (ws s)) ->
+(* a final state with nothing pending: every task was executed exactly once and the root
+   yielded exactly the results *)
+Lemma final_state tasks n s :
+  reach (init tasks n) s -> pc s = RDone -> pend s = [] ->
   Permutation tasks (ran s) /\ Permutation (map f tasks) (got s).
 Proof.
-  intros Hr Hpc Hal. destruct (Inv_reach Hr) as (Hsh & Hp1 & Hp2 & Hinv).
+  intros Hr Hpc Hpe. destruct (Inv_reach Hr) as (Hsh & Hp1 & Hp2 & Hinv).
   unfold pc_inv in Hinv. rewrite Hpc in Hinv. destruct Hinv as (Hb & Hserved & Hpend).
-  (* at RDone all workers are finished: they are not idle, not busy, and RDone is only entered via s_bar *)
+  (* at RDone all workers are finished: RDone is only entered via s_bar *)
   assert (Hfin : forallb fin (ws s) = true).
   { clear - Hr Hpc. induction Hr; [discriminate|].
     inversion H; subst; cbn [pc] in *; try discriminate; auto.
-    - (* worker steps keep pc; so pc s = RDone before: use IH then show preserved *)
-      match goal with Hc : ?c = RDone |- _ => subst c end. specialize (IHHr eq_refl). cbn [Dispatch.ws] in *.
+    - match goal with Hc : ?c = RDone |- _ => subst c end. specialize (IHHr eq_refl). cbn [Dispatch.ws] in *.
       destruct (@upd_split _ _ _ _ (mkW ms (outb w ++ [f t]) false) H0) as (l1 & l2 & E & E' & Hl).
       rewrite E in IHHr. rewrite forallb_app in IHHr. simpl in IHHr. rewrite H1 in IHHr.
       rewrite andb_false_r in IHHr. discriminate.
@@ -361,8 +367,25 @@ Proof.
       rewrite E in IHHr. rewrite forallb_app in IHHr. simpl in IHHr. rewrite H1 in IHHr.
       rewrite andb_false_r in IHHr. discriminate. }
   destruct (busy0_fin_empty Hsh Hfin) as [E1 E2]. rewrite E1 in Hp1. rewrite E2 in Hp2.
-  rewrite (Hpend Hal) in Hp1. simpl in Hp1. rewrite app_nil_r in Hp2.
+  rewrite Hpe in Hp1. simpl in Hp1. rewrite app_nil_r in Hp2.
   split; auto. etransitivity; [apply Permutation_map; exact Hp1 | exact Hp2].
+Qed.
+
+Lemma final_pend tasks n s :
+  reach (init tasks n) s -> pc s = RDone ->
+  has_allowed_below (length (ws s)) \/ fb = true -> pend s = [].
+Proof.
+  intros Hr Hpc Hor. destruct (Inv_reach Hr) as (_ & _ & _ & Hinv).
+  unfold pc_inv in Hinv. rewrite Hpc in Hinv. destruct Hinv as (_ & _ & Hpend). auto.
+Qed.
+
+(* both algorithms (with and without root fallback): exactly once + root result, for every
+   world size n, every rank set containing a worker, every schedule, both send modes *)
+Theorem dispatch_exactly_once tasks n s :
+  reach (init tasks n) s -> pc s = RDone -> has_allowed_below (length (ws s)) ->
+  Permutation tasks (ran s) /\ Permutation (map f tasks) (got s).
+Proof.
+  intros Hr Hpc Hal. apply (final_state Hr Hpc). apply (final_pend Hr Hpc). left. exact Hal.
 Qed.
 
 Lemma noinb_false (l : list worker) :
@@ -404,7 +427,12 @@ Proof.
         -- eexists. eapply s_init_task; eauto.
         -- eexists. eapply s_init_eoq; eauto.
   - destruct Hinv as (Ha & Hserved & Hact).
-    destruct a as [|a]; [eexists; apply s_exit; exact Hok|].
+    destruct a as [|a].
+    { destruct fb eqn:Hfb.
+      - destruct p as [|t p].
+        + eexists. apply s_exit; [exact Hok|reflexivity].
+        + eexists. apply s_fallback; [reflexivity|exact Hok].
+      - eexists. apply s_exit; [exact Hok|discriminate]. }
     (* some worker is busy *)
     assert (Hex : exists i w, nth_error l i = Some w /\ busy w <> 0).
     { clear - Ha. revert a Ha. induction l as [|w l IH]; simpl; intros a Ha; [lia|].
@@ -480,7 +508,7 @@ Ltac dm :=
 Lemma is_nil_true A (l : list A) : is_nil l = true -> l = [].
 Proof. destruct l; [reflexivity|discriminate]. Qed.
 
-Lemma step_with_sound c s s' : step_with f allowed md c s = Some s' -> step s s'.
+Lemma step_with_sound c s s' : step_with f allowed fb md c s = Some s' -> step s s'.
 Proof.
   destruct s as [c0 p l g r]. unfold step_with; cbn [pc pend Dispatch.ws got ran]. intros H.
   destruct c; repeat dm; injection H as <-;
@@ -494,13 +522,15 @@ Proof.
   - eapply s_init_done; eauto.
   - eapply s_recv_more; eauto.
   - eapply s_recv_last; eauto.
+  - eapply s_fallback; eauto.
   - eapply s_exit; eauto.
+    intros ->. apply is_nil_true. simpl in *. assumption.
   - eapply s_wtask; eauto.
   - eapply s_weoq; eauto.
   - eapply s_bar; eauto.
 Qed.
 
-Lemma step_with_complete s s' : step s s' -> exists c, step_with f allowed md c s = Some s'.
+Lemma step_with_complete s s' : step s s' -> exists c, step_with f allowed fb md c s = Some s'.
 Proof.
   intros H. inversion H; subst.
   - exists (CInitTask k). unfold step_with; cbn [pc pend Dispatch.ws got ran].
@@ -514,7 +544,11 @@ Proof.
     rewrite H0, H1, H2. reflexivity.
   - exists (CRecvLast i). unfold step_with; cbn [pc pend Dispatch.ws got ran].
     rewrite H0, H1, H2. reflexivity.
-  - exists CExit. unfold step_with; cbn [pc pend Dispatch.ws got ran]. rewrite H0. reflexivity.
+  - exists CExit. unfold step_with; cbn [pc pend Dispatch.ws got ran].
+    match goal with Hr : root_ok _ _ = true |- _ => rewrite Hr end.
+    match goal with Hp : fb = true -> _ = [] |- _ => destruct fb; [rewrite (Hp eq_refl)|] end; reflexivity.
+  - exists CFallback. unfold step_with; cbn [pc pend Dispatch.ws got ran].
+    match goal with Hr : root_ok _ _ = true |- _ => rewrite Hr end. reflexivity.
   - exists (CWTask i). unfold step_with; cbn [pc pend Dispatch.ws got ran].
     rewrite H0, H1, H2. reflexivity.
   - exists (CWEoq i). unfold step_with; cbn [pc pend Dispatch.ws got ran].
@@ -522,11 +556,11 @@ Proof.
   - exists CBar. unfold step_with; cbn [pc pend Dispatch.ws got ran]. rewrite H0. reflexivity.
 Qed.
 
-Lemma run_sound cs s s' : run f allowed md cs s = Some s' -> reach s s'.
+Lemma run_sound cs s s' : run f allowed fb md cs s = Some s' -> reach s s'.
 Proof.
   revert s. induction cs as [|c cs IH]; simpl; intros s H.
   - injection H as <-. constructor.
-  - destruct (step_with f allowed md c s) as [s1|] eqn:E; [|discriminate].
+  - destruct (step_with f allowed fb md c s) as [s1|] eqn:E; [|discriminate].
     apply (reach_trans (s1 := s1)); [|apply IH; exact H].
     eapply reach_step; [apply reach_refl|]. eapply step_with_sound. exact E.
 Qed.
@@ -549,17 +583,15 @@ Lemma Forall_nth (P : worker -> Prop) i (w : worker) l : nth_error l i = Some w 
 Proof. intros Hn Hl. eapply Forall_forall in Hl; eauto. eapply nth_error_In; eauto. Qed.
 
 Lemma Inv0_step tasks s s' :
-  (forall k, allowed k = false) -> Inv0 tasks s -> step s s' -> Inv0 tasks s'.
+  fb = false -> (forall k, allowed k = false) -> Inv0 tasks s -> step s s' -> Inv0 tasks s'.
 Proof.
-  intros Hna (Hg & Hr & Hp & Hq & Hpc) Hst. unfold Inv0 in *.
-  inversion Hst; subst; cbn [pc pend Dispatch.ws got ran] in *.
+  intros Hfb Hna (Hg & Hr & Hp & Hq & Hpc) Hst. unfold Inv0 in *.
+  inversion Hst; subst; cbn [pc pend Dispatch.ws got ran] in *; try discriminate.
   - rewrite Hna in H. discriminate.
   - repeat split; auto. eapply Forall_upd; eauto.
     destruct (Forall_nth _ H0 Hq) as [Ho Hi]. split; cbn [inb outb]; auto.
     intros t Hin. apply in_app_or in Hin as [Hin|[Hin|[]]]; [eapply Hi; eauto|discriminate].
   - repeat split; auto.
-  - discriminate.
-  - discriminate.
   - repeat split; auto.
   - exfalso. destruct (Forall_nth _ H Hq) as [_ Hi]. apply (Hi t). rewrite H1. left. reflexivity.
   - repeat split; auto. eapply Forall_upd; eauto.
@@ -571,10 +603,10 @@ Qed.
 (* for EVERY task list, world size, send mode and schedule: if no worker rank is in `ranks`
    the root yields nothing, nothing is executed and all tasks are still pending at the end *)
 Theorem dispatch_no_worker_general tasks n s :
-  (forall k, allowed k = false) -> reach (init tasks n) s ->
+  fb = false -> (forall k, allowed k = false) -> reach (init tasks n) s ->
   got s = [] /\ ran s = [] /\ pend s = tasks.
 Proof.
-  intros Hna Hr.
+  intros Hfb Hna Hr.
   assert (H : Inv0 tasks s).
   { induction Hr; [|eapply Inv0_step; eauto].
     unfold Inv0, Dispatch.init; cbn [pc pend Dispatch.ws got ran]. repeat split; auto.
@@ -582,7 +614,32 @@ Proof.
   destruct H as (Hg & Hr' & Hp & _). auto.
 Qed.
 
+(* ---------- the repaired algorithm (root fallback): TOTAL statement ---------- *)
+(* for EVERY rank set `allowed` (also the empty one: max_workers = 1), every number of workers,
+   both send modes, every schedule: a finished run executed every task exactly once and the
+   root yielded exactly map f tasks.  (Termination and deadlock freedom: dispatch_terminates,
+   dispatch_progress, dispatch_reaches_done hold for this algorithm as well.) *)
+Theorem dispatch_exactly_once_total tasks n s :
+  fb = true -> reach (init tasks n) s -> pc s = RDone ->
+  Permutation tasks (ran s) /\ Permutation (map f tasks) (got s).
+Proof.
+  intros Hfb Hr Hpc. apply (final_state Hr Hpc). apply (final_pend Hr Hpc). right. exact Hfb.
+Qed.
+
 End DispatchP.
+
+(* the two algorithms as instances: repaired (fb = true), pinned "_cur" (fb = false) *)
+Corollary dispatch_exactly_once_total_repaired :
+  forall (T R : Type) (f : T -> R) allowed md tasks n (s : st T R),
+  reach f allowed true md (init tasks n) s -> pc s = RDone ->
+  Permutation tasks (ran s) /\ Permutation (map f tasks) (got s).
+Proof. intros T R f allowed md tasks n s. exact (@dispatch_exactly_once_total T R f allowed true md tasks n s eq_refl). Qed.
+
+Corollary dispatch_no_worker_general_cur :
+  forall (T R : Type) (f : T -> R) allowed md tasks n (s : st T R),
+  (forall k, allowed k = false) -> reach f allowed false md (init tasks n) s ->
+  got s = [] /\ ran s = [] /\ pend s = tasks.
+Proof. intros T R f allowed md tasks n s. exact (@dispatch_no_worker_general T R f allowed false md tasks n s eq_refl). Qed.
 
 (* ---------- F13a: max_workers = 1  =>  ranks = {0}  =>  no worker index is allowed ---------- *)
 Lemma c06_allowed_root_only k : c06_allowed [0] k = false.
@@ -591,19 +648,30 @@ Proof. reflexivity. Qed.
 Definition f13a_choices : list choice :=
   [CInitEoq 0; CWEoq 0; CInitEoq 1; CWEoq 1; CInitDone; CExit; CBar].
 
-(* a complete run (world size 3, three tasks) that ends with every rank returned, nothing
-   executed, nothing yielded: the statement "the root gets map f tasks" is false of the
-   faithful model of the current code when max_workers = 1 — in both send modes *)
+(* the PINNED algorithm (no root fallback, fb = false): a complete run (world size 3, three
+   tasks) that ends with every rank returned, nothing executed, nothing yielded — the statement
+   "the root gets map f tasks" is false of the faithful model of the pinned code when
+   max_workers = 1, in both send modes.  Repaired by commit cd002ec (fb = true). *)
 Theorem dispatch_no_worker_refuted :
   forall md, exists s : st nat nat,
-    reach c06_f (c06_allowed [0]) md (init [10; 20; 30] 2) s /\ pc s = RDone /\
+    reach c06_f (c06_allowed [0]) false md (init [10; 20; 30] 2) s /\ pc s = RDone /\
     got s = [] /\ ran s = [] /\ pend s = [10; 20; 30] /\
     ~ Permutation (map c06_f [10; 20; 30]) (got s).
 Proof.
   intros md.
-  destruct (run c06_f (c06_allowed [0]) md f13a_choices (init [10; 20; 30] 2)) as [s|] eqn:E;
+  destruct (run c06_f (c06_allowed [0]) false md f13a_choices (init [10; 20; 30] 2)) as [s|] eqn:E;
     [|destruct md; vm_compute in E; discriminate].
-  exists s. pose proof (run_sound _ _ _ _ _ E) as Hr.
+  exists s. pose proof (run_sound _ _ _ _ _ _ E) as Hr.
   destruct md; vm_compute in E; injection E as <-; cbn [pc got ran pend];
     (repeat split; auto; intros HP; apply Permutation_length in HP; discriminate).
 Qed.
+
+(* the same world under the repaired algorithm: the root runs the three tasks itself *)
+Definition f13a_choices_fixed : list choice :=
+  [CInitEoq 0; CWEoq 0; CInitEoq 1; CWEoq 1; CInitDone; CFallback; CFallback; CFallback; CExit; CBar].
+
+Lemma dispatch_no_worker_fixed_run :
+  forall md, exists s : st nat nat,
+    run c06_f (c06_allowed [0]) true md f13a_choices_fixed (init [10; 20; 30] 2) = Some s /\
+    pc s = RDone /\ got s = [31; 61; 91] /\ ran s = [10; 20; 30] /\ pend s = [].
+Proof. intros md. destruct md; eexists; vm_compute; repeat split; reflexivity. Qed.
